@@ -726,7 +726,8 @@ impl Song {
         y
     }
     pub fn change_cur_track(&mut self, no: usize) {
-        self.cur_track = no as usize;
+        // the SMF header counts the tracks in 16 bits: at most 65535 tracks (numbers 0 to 65534)
+        self.cur_track = if no > 65534 { 65534 } else { no };
         // new track ?
         while self.tracks.len() <= self.cur_track {
             // println!("{:?}", v);
